@@ -130,6 +130,10 @@ func (tx *Tx) Rollback() error {
 		}
 	}
 
+	if tx.target == nil {
+		// an XA branch has no local transaction behind it: XA END / XA ROLLBACK are issued by the connection
+		return nil
+	}
 	return tx.target.Rollback()
 }
 
